@@ -330,3 +330,7 @@ mod tests {
         assert_eq!(ntps.reference_id, ReferenceId::KISS_DENY);
     }
 }
+
+#[cfg(feature = "pendulum_project_ntpd_rs_verif")]
+#[path = "/verif/hooks/ntp-proto/system.rs"]
+pub mod verif_hooks;
